@@ -1917,13 +1917,21 @@ func runNUMGATE(c *Ctx, r *Result, rule string) int {
 		return "", false
 	}
 	n := 0
-	for _, ins := range instrsIn(f) {
+	// $number and the package functions it calls (the gate and the conversion may have been
+	// extracted together into a helper)
+	var all []ssa.Instruction
+	for _, g := range withCallees(c, []*ssa.Function{f}, 2) {
+		if g.Pkg == f.Pkg {
+			all = append(all, instrsIn(g)...)
+		}
+	}
+	for _, ins := range all {
 		call, ok := ins.(*ssa.Call)
 		if !ok || staticName(call) != "strconv.ParseFloat" {
 			continue
 		}
 		n++
-		o := Obligation{Rule: rule, Key: fmt.Sprintf("jlib.Number:ParseFloat#%d", n), Fn: shortFn(f), Pos: c.W.Pos(call.Pos()), Nontrivial: true}
+		o := Obligation{Rule: rule, Key: fmt.Sprintf("jlib.Number:ParseFloat#%d", n), Fn: shortFn(call.Parent()), Pos: c.W.Pos(call.Pos()), Nontrivial: true}
 		s := call.Call.Args[0]
 		pattern, found := "", false
 		domGuard(call.Block(), func(cond ssa.Value) (int, bool) {
